@@ -749,6 +749,33 @@ class TrajectoryStore:
                         f'Data field "{name}" is None in trajectory to be added'
                     )
 
+        # Once the NetCDF files exist, their field sets and species dimensions
+        # are fixed. Check the trajectory against them now, for the same
+        # reason: these failures would otherwise only surface half-way through
+        # writing, after the store's state has changed. (The cache may be
+        # empty in an append session, so the schema check above cannot be
+        # relied on.)
+        if self._nc and not self._file_creation_pending:
+            if set(trajectory._fieldsets) != set(self._nc.keys()):
+                raise ValueError(
+                    'All trajectories in a TrajectoryStore must have the same '
+                    'data fields'
+                )
+            for fs_name, nc_files in self._nc.items():
+                for name, field in FieldSet.from_registry(fs_name).items():
+                    if Dimension.SPECIES not in field.dimensions:
+                        continue
+                    val = getattr(trajectory, name)
+                    if val is None:
+                        continue
+                    allowed = nc_files.species or []
+                    missing = [sp.name for sp in val.keys() if sp not in allowed]
+                    if missing:
+                        raise ValueError(
+                            f'Data field "{name}" has species {missing} that are '
+                            'not in the species dimension of the NetCDF file'
+                        )
+
         if self.indexable is None:
             self.indexable = has_flight_id
 
